@@ -126,7 +126,7 @@ def run(ctx, P):
 
 SELFCHECK = {"quick": 0, "thorough": 0}   # pinned self-validation runs under TZ=UTC only; replays carry the real TZ
 META = dict(
-    bounds=dict(quick="N=2 candles, timeframes T5/T45/H1/D1, fill off/on (span<=5 buckets), zones: every fixed quarter-hour offset -12h..+14h (symbolic), one EU-style DST zone over 2024 (symbolic timestamps across both transitions)",
+    bounds=dict(quick="N=2 candles, timeframes T5/T45/H1/D1, fill off/on (span<=5 buckets), zones: every fixed quarter-hour offset -12h..+14h (symbolic), one EU-style DST zone over 2024 (symbolic timestamps across both transitions); second-based timeframe S10; ISO-8601 string timestamps (4 concrete sets of 3-5 wall-clock values incl. both DST transition nights, via Candle(), from_dict, from_dicts) under the symbolic zone, T5/H1",
                 thorough="N=3, timeframes S5,T1,T5,T45,H1,H4,D1,D7"),
     stubs=["naive datetime.timestamp()/fromtimestamp() -> zone model (fixed offset; rule zone with CPython's _mktime algorithm, fold=0)", "datetime -> integer seconds"],
     assumptions=["zones with several transitions per year or non-hour DST shifts are outside the claim", "counterexamples only count when reproduced under the real TZ environment variable"],
